@@ -14,13 +14,28 @@ RULE = ("well-formed program association sections with pointer_field 0 built by 
         "whole 188-byte packet (no adaptation field, adaptation field of every length that leaves room), packet stream "
         "through ReadPAT (0..5 leading packets of other PIDs, trailing packets incl. a second PAT, fragmenting reader, "
         "streams without a PAT ending in EOF / partial packet / reader error); IsPMT for PIDs that are values, network-only, "
-        "absent, and for the nil PAT.  A case is non-trivial when it is a distinct request inside the property's hypotheses; "
+        "absent, and for the nil PAT.  Every deciding case is judged by the Spec-side oracle (spec.pat of modelexec: expected entry count, "
+        "sorted last-wins program map, single-program PID, PMT classification computed from the logical entry list by Spec/PatSpec.v) "
+        "in addition to model equality.  A case is non-trivial when it is a distinct request inside the property's hypotheses; "
         "malformed inputs (pointer_field != 0, truncation, wrong section_length, packets without payload, short payloads, "
         "188-byte payload strings, psi helpers on arbitrary bytes) are fidelity cases for the C05 totality lemmas")
 EXHAUSTIVE = False
-ASSUMPTIONS = ["pointer_field = 0 (the PAT accessors hard-code offset 8)",
+ASSUMPTIONS = ["pointer_field = 0 (the PAT accessors hard-code offset 8; what happens for pointer_field > 0 is characterised by C07_pointer_nonzero_* and refutes the property as its text reads: notes/findings/C07.md P1)",
                "io.ReadFull behaves as documented (the reader script is the list of its results)",
                "payload byte strings are not exactly 188 bytes long (NewPAT treats a 188-byte slice as a packet)"]
+
+
+EXPECT = {}   # case line -> reply required by the Spec-side oracle (spec.pat / spec.pat.ispmt of modelexec)
+META = {}     # case line -> logical description of the case (for the shrinker)
+_SPEC_REQ = []  # (case line, spec request), resolved in one batch at the end of gen
+
+
+def spec_view_req(entries):
+    return "spec.pat %s" % wire([list(e) for e in entries])
+
+
+def spec_ispmt_req(entries, pid):
+    return "spec.pat.ispmt %s %d" % (wire([list(e) for e in entries]), pid)
 
 
 def wire(v):
@@ -61,10 +76,20 @@ def entries_shapes(rng, n):
     return shapes
 
 
+def mkrec(rng, entries):
+    """the logical section: flags nibble, the five bytes after section_length, the entries, the CRC bytes"""
+    return dict(flags=rng.choice([0xB, 0xB, 0x8, 0xF, 0x0, rng.randrange(16)]),
+                hdr=bytes([rng.randrange(256), rng.randrange(256), 0xC1 | (rng.randrange(32) << 1), 0, 0]),
+                entries=list(entries), crc=rb(rng, 4))
+
+
+def payload_req(rec, rest=b"", entries=None):
+    e = rec["entries"] if entries is None else entries
+    return "pat.ser.payload %d %s %s %s %s" % (rec["flags"], hx(rec["hdr"]), wire([list(x) for x in e]), hx(rec["crc"]), hx(rest))
+
+
 def ser_payload_req(rng, entries, rest=b""):
-    flags = rng.choice([0xB, 0xB, 0x8, 0xF, 0x0, rng.randrange(16)])
-    hdr = bytes([rng.randrange(256), rng.randrange(256), 0xC1 | (rng.randrange(32) << 1), 0, 0])
-    return "pat.ser.payload %d %s %s %s %s" % (flags, hx(hdr), wire([list(e) for e in entries]), hx(rb(rng, 4)), hx(rest))
+    return payload_req(mkrec(rng, entries), rest)
 
 
 def ser_packet_req(rng, pid, af, payload):
@@ -87,18 +112,22 @@ def gen(rng, tier):
     out = []
     reps = 6 if thorough else 1
     # ---- stage 1: payloads from logical entry lists
+    EXPECT.clear(); META.clear(); del _SPEC_REQ[:]
     plan = []    # (entries, request)
+    recs = []
     for _ in range(reps):
         for n in range(0, 43):
             for e in entries_shapes(rng, n):
-                plan.append((e, ser_payload_req(rng, e)))
+                recs.append(mkrec(rng, e))
+                plan.append((e, payload_req(recs[-1])))
     for n in [43, 44, 60, 100, 200, 252, 253] + ([rng.randrange(43, 254) for _ in range(20)] if thorough else []):
         e = entries_shapes(rng, n)[rng.randrange(3)]
-        plan.append((e, ser_payload_req(rng, e)))
+        recs.append(mkrec(rng, e))
+        plan.append((e, payload_req(recs[-1])))
     bare = [unhx(r) for r in vlib.run_model([r for _, r in plan])]
     # ---- stage 2: carriers
     pkt_reqs = []   # (kind, entries, payload, af) -> 188-byte packets through the Spec packet serialiser
-    for (e, _), pay in zip(plan, bare):
+    for (e, _), pay, rec in zip(plan, bare, recs):
         n = len(e)
         th = "C07_num_programs"
         # payload carrier: bare, stuffed to a 184-byte payload, random trailing bytes
@@ -111,25 +140,29 @@ def gen(rng, tier):
                 out.append(Case("pat.new " + hx(v), kind="fidelity-payload-188", decides=False, nontrivial=False, theorem=th))
             else:
                 out.append(Case("pat.new " + hx(v), kind="payload", theorem=th))
+                _SPEC_REQ.append((out[-1].line, spec_view_req(e)))
+                META[out[-1].line] = dict(carrier="payload", rec=rec, rest=v[len(pay):])
         if len(pay) <= 184:
             stuffed = pay + b"\xff" * (184 - len(pay))
-            pkt_reqs.append(("packet", e, stuffed, None))
+            pkt_reqs.append(("packet", e, stuffed, None, rec))
             room = 183 - len(pay)        # adaptation field content bytes that still leave room for the section
             afl = sorted({0, 1, room, rng.randrange(0, room + 1), rng.randrange(0, room + 1)} if room >= 1 else {0})
             for L in (range(0, room + 1) if (thorough and n % 7 == 0) else afl):
                 af = (bytes([rng.choice([0x00, 0x40, 0x10, 0xFF])]) + b"\xff" * (L - 1)) if L else b""
                 body = pay + b"\xff" * (183 - L - len(pay))
-                pkt_reqs.append(("packet-af", e, body, af))
+                pkt_reqs.append(("packet-af", e, body, af, rec))
     packets = [unhx(r) for r in vlib.run_model([ser_packet_req(rng, 0 if k != "packet" or rng.random() < 0.7 else rng.randrange(8192), af, body)
-                                                for k, e, body, af in pkt_reqs])]
+                                                for k, e, body, af, _ in pkt_reqs])]
     pat_packets = []
-    for (k, e, body, af), pkt in zip(pkt_reqs, packets):
+    for (k, e, body, af, rec), pkt in zip(pkt_reqs, packets):
         assert len(pkt) == 188
         out.append(Case("pat.new " + hx(pkt), kind=k, theorem="C07_new_pat_packet"))
+        _SPEC_REQ.append((out[-1].line, spec_view_req(e)))
+        META[out[-1].line] = dict(carrier="packet", rec=rec, pkt=pkt, af=af)
         if pkt[1] & 0x1F == 0 and pkt[2] == 0:
-            pat_packets.append((e, pkt))
+            pat_packets.append((e, pkt, rec))
     # ---- stream carrier
-    for i, (e, pkt) in enumerate(pat_packets):
+    for i, (e, pkt, rec) in enumerate(pat_packets):
         if not thorough and i % 3:
             continue
         lead = [other_packet(rng) for _ in range(rng.choice([0, 1, 2, 3, 5]))]
@@ -137,8 +170,11 @@ def gen(rng, tier):
         if rng.random() < 0.3:
             trail.append(pat_packets[rng.randrange(len(pat_packets))][1])   # a later, different PAT must not matter
         frag = rng.choice([0, 1, 7, 187, 188, 189, 376, 4096])
-        out.append(Case("pat.read %s %d %d" % (wire(lead + [pkt] + trail), rng.randrange(3), frag), kind="stream",
+        tailmode = rng.randrange(3)
+        out.append(Case("pat.read %s %d %d" % (wire(lead + [pkt] + trail), tailmode, frag), kind="stream",
                         theorem="C07_read_pat"))
+        _SPEC_REQ.append((out[-1].line, spec_view_req(e)))
+        META[out[-1].line] = dict(carrier="stream", rec=rec, pkt=pkt, lead=lead, trail=trail, tail=tailmode, frag=frag)
     for _ in range(200 if thorough else 40):
         pk = [other_packet(rng) for _ in range(rng.randrange(0, 6))]
         out.append(Case("pat.read %s %d %d" % (wire(pk), rng.randrange(2), rng.choice([0, 1, 100, 188, 1000])),
@@ -147,7 +183,7 @@ def gen(rng, tier):
         out.append(Case("pat.read %s 2 %d" % (wire(pk), rng.choice([0, 50, 188])), kind="fidelity-stream-reader-error",
                         decides=False, nontrivial=False, theorem="read_pat_reader_error"))
     # ---- IsPMT
-    for i, ((e, _), pay) in enumerate(zip(plan, bare)):
+    for i, ((e, _), pay, rec) in enumerate(zip(plan, bare, recs)):
         if len(pay) == 188 or (not thorough and i % 2):
             continue
         progs = {}
@@ -171,6 +207,8 @@ def gen(rng, tier):
             p[1] = (p[1] & 0xE0) | (pid >> 8)
             p[2] = pid & 0xFF
             out.append(Case("pat.ispmt %s [ %s ]" % (hx(p), hx(pay)), kind=kind, theorem="C07_is_pmt_iff"))
+            _SPEC_REQ.append((out[-1].line, spec_ispmt_req(e, pid)))
+            META[out[-1].line] = dict(carrier="ispmt", rec=rec, pkt=bytes(p), pid=pid)
     for _ in range(10):
         out.append(Case("pat.ispmt %s [ ]" % hx(other_packet(rng)), kind="ispmt-nil", theorem="C07_is_pmt_nil"))
     # ---- fidelity (C05 side): malformed inputs; they tie the error branches of the model to the code
@@ -208,7 +246,87 @@ def gen(rng, tier):
         b[0] = rng.choice([0, 0, 1, 2, len(b) - 3, len(b) - 2, len(b) - 1, len(b), 254, 255]) & 0xFF
         fid("pat.psi " + hx(b), "psi")
         fid("pat.new " + hx(b), "random")
+    # pointer_field = k > 0 in front of a well-formed section (C07_pointer_nonzero_*: the model is PROVED to decode the
+    # wrong bytes there and the code does the same; outside the hypothesis pointer_field = 0, hence fidelity)
+    for k in range(120 if thorough else 30):
+        pay = sample[rng.randrange(len(sample))]
+        kk = rng.choice([1, 1, 2, 3, 4, 8, rng.randrange(1, 40)])
+        q = bytes([kk]) + rng.choice([b"\xff" * kk, rb(rng, kk)]) + pay[1:]
+        if len(q) != 188:
+            fid("pat.new " + hx(q), "pointer-nonzero-wf-section")
+    # the Spec-side oracle: one batch through modelexec
+    for (line, _), r in zip(_SPEC_REQ, vlib.run_model([q for _, q in _SPEC_REQ])):
+        EXPECT[line] = r
     return out
+
+
+def oracle(c, real, model):
+    """deciding cases are judged by the Spec-side oracle (spec.pat of modelexec: spec_num / spec_map / spts / spec_is_pmt
+    of Spec/PatSpec.v on the LOGICAL entry list, no model function involved) in addition to model equality"""
+    exp = EXPECT.get(c.line)
+    if exp is not None and c.decides and real != exp:
+        return ("observed differs from what the Spec-side oracle (spec.pat: entry count, sorted last-wins program map, "
+                "single-program PID, PMT classification from the logical entry list) requires: " + exp[:300])
+    return None
+
+
+def _resolve(cands):
+    """cands: list of (kind of line builder, serialisation request or None, spec request, builder(bytes)->line, meta)"""
+    reqs = [c[0] for c in cands if c[0] is not None] + [c[1] for c in cands]
+    rep = vlib.run_model(reqs)
+    nser = sum(1 for c in cands if c[0] is not None)
+    sers, specs = rep[:nser], rep[nser:]
+    k = 0
+    for (serreq, _, build, meta), sp in zip(cands, specs):
+        b = None
+        if serreq is not None:
+            b = unhx(sers[k]); k += 1
+        line = build(b)
+        if line is None:
+            continue
+        EXPECT[line] = sp
+        META[line] = meta
+        yield line
+
+
+def shrink(c):
+    """drop entries (halves, then single entries), shorten the carrier (stream -> its PAT packet -> payload bytes
+    without trailing bytes); every candidate is re-serialised by the Coq serialiser and gets its own oracle answer"""
+    m = META.get(c.line)
+    if m is None:
+        return
+    rec = m["rec"]; es = rec["entries"]
+    subs = []
+    if len(es) > 1:
+        subs += [es[:len(es) // 2], es[len(es) // 2:]]
+    subs += [es[:i] + es[i + 1:] for i in range(min(len(es), 16))]
+    cands = []
+    def rec_with(e):
+        r = dict(rec); r["entries"] = e
+        return r
+    if m["carrier"] == "stream":
+        for lead, trail, frag in (([], m["trail"], m["frag"]), (m["lead"], [], m["frag"]), ([], [], 0)):
+            if (lead, trail, frag) != (m["lead"], m["trail"], m["frag"]):
+                mm = dict(m); mm.update(lead=lead, trail=trail, frag=frag)
+                cands.append((None, spec_view_req(es), (lambda b, l=lead, t=trail, f=frag: "pat.read %s %d %d" % (wire(l + [m["pkt"]] + t), m["tail"], f)), mm))
+        cands.append((None, spec_view_req(es), (lambda b: "pat.new " + hx(m["pkt"])), dict(carrier="packet", rec=rec, pkt=m["pkt"], af=None)))
+    elif m["carrier"] == "packet":
+        cands.append((payload_req(rec), spec_view_req(es), (lambda b: "pat.new " + hx(b) if len(b) != 188 else None),
+                      dict(carrier="payload", rec=rec, rest=b"")))
+    elif m["carrier"] == "payload":
+        if m["rest"]:
+            cands.append((payload_req(rec), spec_view_req(es), (lambda b: "pat.new " + hx(b) if len(b) != 188 else None),
+                          dict(carrier="payload", rec=rec, rest=b"")))
+        for e in subs:
+            cands.append((payload_req(rec, m["rest"], e), spec_view_req(e), (lambda b: "pat.new " + hx(b) if len(b) != 188 else None),
+                          dict(carrier="payload", rec=rec_with(e), rest=m["rest"])))
+    elif m["carrier"] == "ispmt":
+        for e in subs:
+            cands.append((payload_req(rec, b"", e), spec_ispmt_req(e, m["pid"]),
+                          (lambda b: "pat.ispmt %s [ %s ]" % (hx(m["pkt"]), hx(b)) if len(b) != 188 else None),
+                          dict(carrier="ispmt", rec=rec_with(e), pkt=m["pkt"], pid=m["pid"])))
+    for line in _resolve(cands):
+        yield Case(line, kind=c.kind, decides=c.decides, nontrivial=c.nontrivial, theorem=c.theorem)
 
 
 def payload_of(pkt):
